@@ -137,7 +137,7 @@ def bad_block(rt, k, tag, variant, cd=None, md=None):
     Returns (obj, kind) with kind in {'text','format','object'}: types without
     text fields fall back to 'format', types without a refused format to 'object'."""
     k = max(k, 1)
-    text_variant = variant not in ("format", "object")
+    text_variant = variant not in ("format", "object", "format_attr")
     if text_variant and rt not in LABELLED:
         variant = "format"
     if variant == "format" and _refused_format(rt) is None:
@@ -145,6 +145,11 @@ def bad_block(rt, k, tag, variant, cd=None, md=None):
     if variant == "object":
         return NotABlock(), "object"
     b = make_block(rt, k, tag, cd, md)
+    if variant == "format_attr":
+        # a block object whose format attribute is not a format (a plain int): the table entry
+        # cannot be built from it; encoders that never look at the format would still write it
+        b.format = b.format.value
+        return b, "object"
     if variant == "format":
         b.format = _refused_format(rt)
         return b, "format"
@@ -165,7 +170,7 @@ def bad_block(rt, k, tag, variant, cd=None, md=None):
     return b, "text"
 
 
-BAD_VARIANTS = ["long_first", "long_last", "nonlatin_first", "nonlatin_last", "format", "object"]
+BAD_VARIANTS = ["long_first", "long_last", "nonlatin_first", "nonlatin_last", "format", "object", "format_attr"]
 
 
 def encode(block):
